@@ -112,7 +112,7 @@ CLAIMED = {
        "(self pairs: nearest copy), direction lower->higher index along that image, tensors, rotation axes, block sizes {1,2,7,1000}, swapped selections, "
        "RSS against brute-force image enumeration.",
   note="The numeric constant (scipy.constants, gamma table) and float arithmetic are compared with 1e-9 relative tolerance, not modelled. "
-       "get_pair_dipolar_couplings (2D correlation strengths) is not exercised. Two defects found by this check were repaired (24b81c8 integer rotation axis, "
+       "get_pair_dipolar_couplings (2D correlation strengths) is compared with DipolarCoupling on random pair lists in every unit. Two defects found by this check were repaired (24b81c8 integer rotation axis, "
        "b88eb48 RSS image grid).",
   technique="Coq proof (Z lists, no axioms; Reals ring/field) of hand models reusing the C03 lattice theorems + differential correspondence + exact-distance oracle",
   design="§8 C11"),
